@@ -82,8 +82,12 @@ def corr_methods(res, rng, n):
         oc = {k: rng.choice(["ok", "fail"]) for k in ("n", "l", "i")}
         hp = rng.random() < 0.9
 
-        class Stub:
-            pass
+        class Stub(PsiContour):
+            """a PsiContour whose three elementary refinement methods are replaced (instance attributes shadow the methods); everything
+            else — refinePoint itself and whatever helpers it is split into — is the real code"""
+
+            def __init__(self):
+                pass
 
         st = Stub()
         st.psival = 1.0 if hp else None
@@ -102,6 +106,8 @@ def corr_methods(res, rng, n):
             exp = str(int(out.R))
         except SolutionError:
             exp = "error"
+        except Exception as e:  # the real code no longer runs on the stub: reported as a broken correspondence, not as a crash
+            exp = "stub-failure:%s" % type(e).__name__
         hist[exp] = hist.get(exp, 0) + 1
         lines.append("c01m %d %s %s %s %s" % (hp, ",".join(ms), oc["n"], oc["l"], oc["i"]))
         expect.append(exp)
@@ -214,7 +220,11 @@ def specs_for(tier):
          gridlab.tokamak_spec("udn", options={"psinorm_sol": 1.1, "psinorm_sol_inner": 1.06}, extract=ex),   # different inner / outer SOL ranges
          # a large-flux equilibrium (psi x 15): corrections in psi during refinement are large compared with the tolerances
          gridlab.tokamak_spec("lsn", options={"orthogonal": False}, wall=W2, psi_sign=15.0, extract=ex),
+         # a tolerance tighter than what the integration step of "integrate+newton" reaches: the Newton polish has to do the work (or fail over)
+         gridlab.tokamak_spec("lsn", options={"orthogonal": False, "refine_atol": 1.0e-10}, wall=W2, extract=ex),
          gridlab.circular_spec(extract=ex)]
+    # a grid on which no two options that could be confused coincide (see gridlab.odd_spec)
+    S.append(gridlab.odd_spec("lsn", True, extract=ex))
     if tier == "thorough":
         for geo in ("usn", "cdn", "ldn", "udn2"):
             S.append(gridlab.tokamak_spec(geo, extract=ex))
@@ -230,6 +240,8 @@ def specs_for(tier):
         S.append(gridlab.tokamak_spec("lsn", psi_sign=-1.0, extract=ex))
         S.append(gridlab.tokamak_spec("lsn", options={"refine_atol": 1e-6, "refine_methods": "line"}, extract=ex))
         S.append(gridlab.circular_spec(options={"number_of_processors": 1, "limiter": True}, extract=ex))
+    if tier == "thorough":
+        S.append(gridlab.odd_spec("cdn", False, extract=ex))
     return S
 
 
@@ -291,7 +303,14 @@ def oracle(res, tier):
                             res.violation("pinned-not-xpoint", "%s region %s: corner excluded as pinned is not at an X-point" % (t, r["name"]), {"spec": sp})
                 bad = (err > bound) & ~excl
                 worst = max(worst, float(np.nanmax(np.where(excl, 0, err))))
-                if bad.any():
+                if bad.any() and atol < 2.0e-8 and float(np.nanmax(np.where(bad, err, 0.0))) <= 5.0e-9 * max(1.0, float(np.nanmax(np.abs(exp)))):
+                    # refine_atol tighter than the default and the misses are at the accuracy floor (~1e-9) of the last-resort method
+                    # refinePointIntegrate, which by its own documentation "does not respect atol": a finding of its own, kept apart from
+                    # points that are off their surface by more than that
+                    res.violation("tight-refine_atol-not-reached", "%s region %s: with refine_atol=%.1e %d points of Rxy%s are off their flux surface by up to %.2e "
+                                  "(the fallback method refinePointIntegrate does not respect atol)" % (t, r["name"], atol, int(bad.sum()), suf, float(np.nanmax(np.where(bad, err, 0.0)))),
+                                  {"spec": sp, "region": r["name"], "location": suf})
+                elif bad.any():
                     i, j = np.argwhere(bad)[0]
                     R, Z = on["pos"][suf]
                     res.violation("off-surface:%s:%s" % (t, suf or "centre"),
